@@ -22,7 +22,7 @@ else ifeq ($(V),dbg)
   LDFLAGS := $(SAN_ASAN)
 else ifeq ($(V),fuzz)
   CXX := clang++
-  FLAGS := -O1 -g $(SAN_ASAN) -fsanitize=fuzzer-no-link -DMANIFOLD_PAR=-1
+  FLAGS := -O1 -g $(SAN_ASAN) -fsanitize=fuzzer-no-link -DMANIFOLD_PAR=-1 -DVERIF_FUZZ_TARGET
   LDFLAGS := $(SAN_ASAN) -fsanitize=fuzzer
 else ifeq ($(V),seq)
   CXX := g++
